@@ -83,10 +83,17 @@ def main():
             r["repo_commit"] = head[:8]
             r["tier"] = a.tier
             r["verdict"] = {1: "caught", 0: "MISSED", 2: "machinery"}.get(r["rc"], "not run")
+            try:
+                head = open(r["patch"]).readline().strip()
+            except OSError:
+                head = ""
+            r["header"] = head[:300] if head.startswith("#") else ""
+            if r["verdict"] == "MISSED" and ("equivalent" in head.lower() or "not expected to be caught" in head.lower()):
+                r["verdict"] = "equivalent (not expected to be caught)"
             results[key] = r
             print("%-60s %-4s %s %s" % (key, r["prop"], r["verdict"], (r.get("violations") or [r.get("note", "")])[:1]))
             json.dump(results, open(res_path, "w"), indent=1, sort_keys=True)
-    missed = [k for k, r in results.items() if r["verdict"] != "caught"]
+    missed = [k for k, r in results.items() if r["verdict"] != "caught" and not r["verdict"].startswith("equivalent")]
     print("%d results, %d not caught" % (len(results), len(missed)))
     return 0
 
